@@ -203,7 +203,7 @@ func runCase(c Case) (res pbt.Result) {
 		}
 		total++
 	}
-	ok := in.WaitRows(8*time.Second, total)
+	ok := in.WaitRows(pbt.Wait(8*time.Second), total)
 	if len(c.Keys) == 0 && (remainder || !ok) {
 		in.Settle(30 * time.Millisecond)
 	} else {
